@@ -611,13 +611,14 @@ var c10StackOnce sync.Once
 
 func c10Run(c *Case) []any {
 	// unbounded recursion is an observation (the child dies, the runner reports "crash"); a smaller maximal stack makes
-	// it die in a fraction of a second instead of after filling 1 GB
-	c10StackOnce.Do(func() { debug.SetMaxStack(64 << 20) })
+	// it die in a fraction of a second instead of after filling 1 GB (3000 levels of legitimately deep input need more than 64 MB in multi-error mode)
+	c10StackOnce.Do(func() { debug.SetMaxStack(256 << 20) })
 	var raw map[string]any
 	c.Decode(&raw)
 	line := map[string]any{"case": c.Idx, "c": raw}
 	obs := map[string]any{"doc": "ok", "router_mux": "skipped", "router_legacy": "skipped", "find_mux": "skipped", "find_legacy": "skipped",
-		"validate_request": "skipped", "validate_request_legacy_route": "skipped", "validate_response": "skipped", "convert_errors": "skipped", "middleware": "skipped"}
+		"validate_request": "skipped", "validate_request_legacy_route": "skipped", "validate_response": "skipped", "convert_errors": "skipped", "middleware": "skipped",
+		"error_report": "skipped", "error_encoder": "skipped", "middleware_lenient": "skipped", "validate_again": "skipped"}
 	line["obs"] = obs
 	var msgs []string
 	defer func() {
@@ -686,6 +687,31 @@ func c10Run(c *Case) []any {
 				nilOptions = true
 			case "multi_include_status_skip_defaults":
 				opts.MultiError, opts.IncludeResponseStatus, opts.SkipSettingDefaults = true, true, true
+			case "schema_error_details_disabled":
+				openapi3.SchemaErrorDetailsDisabled = true
+				defer func() { openapi3.SchemaErrorDetailsDisabled = false }()
+			case "formats_defined":
+				// process-wide format registries: opt-in validators for ipv4 / ipv6 / email / uuid, a number and an integer format, a callback
+				saveS, saveN, saveI := openapi3.SchemaStringFormats, openapi3.SchemaNumberFormats, openapi3.SchemaIntegerFormats
+				openapi3.SchemaStringFormats, openapi3.SchemaNumberFormats, openapi3.SchemaIntegerFormats = map[string]openapi3.StringFormatValidator{}, map[string]openapi3.NumberFormatValidator{}, map[string]openapi3.IntegerFormatValidator{}
+				for k, v := range saveS {
+					openapi3.SchemaStringFormats[k] = v
+				}
+				for k, v := range saveN {
+					openapi3.SchemaNumberFormats[k] = v
+				}
+				for k, v := range saveI {
+					openapi3.SchemaIntegerFormats[k] = v
+				}
+				defer func() { openapi3.SchemaStringFormats, openapi3.SchemaNumberFormats, openapi3.SchemaIntegerFormats = saveS, saveN, saveI }()
+				openapi3.DefineIPv4Format()
+				openapi3.DefineIPv6Format()
+				openapi3.DefineStringFormatValidator("email", openapi3.NewRegexpFormatValidator(openapi3.FormatOfStringForEmail))
+				openapi3.DefineStringFormatValidator("uuid", openapi3.NewRegexpFormatValidator(openapi3.FormatOfStringForUUIDOfRFC4122))
+				openapi3.DefineStringFormatValidator("binary", openapi3.NewCallbackValidator(func(string) error { return errors.New("never") }))
+				openapi3.DefineNumberFormatValidator("float", openapi3.NewRangeFormatValidator(-3.4e38, 3.4e38))
+				openapi3.DefineNumberFormatValidator("double", openapi3.NewCallbackValidator(func(float64) error { return &openapi3.SchemaError{Reason: "no doubles"} }))
+				openapi3.DefineIntegerFormatValidator("made-up", openapi3.NewCallbackValidator(func(int64) error { return errors.New("made up") }))
 			case "all_excludes":
 				opts.ExcludeRequestBody, opts.ExcludeRequestQueryParams, opts.ExcludeResponseBody = true, true, true
 				opts.ExcludeReadOnlyValidations, opts.ExcludeWriteOnlyValidations = true, true
@@ -755,8 +781,21 @@ func c10Run(c *Case) []any {
 	}
 	var verr error
 	obs["validate_request"] = c10Outcome(func() error { verr = openapi3filter.ValidateRequest(context.Background(), input); return verr }, &msgs)
+	// the text of an error quotes the value at every level: quadratic (and worse in multi-error mode) in the nesting depth.
+	// Errors are read on traffic nested at most 500 deep; deeper traffic exercises the validators only.
+	deep := func(b []byte) bool { return bytes.Count(b, []byte("{"))+bytes.Count(b, []byte("[")) > 500 }
+	readable := !deep(reqSpec.body) && !deep(resp.body)
+	var cerr error
 	if verr != nil {
-		obs["convert_errors"] = c10Outcome(func() error { _ = openapi3filter.ConvertErrors(verr); return nil }, &msgs)
+		obs["convert_errors"] = c10Outcome(func() error { cerr = openapi3filter.ConvertErrors(verr); return nil }, &msgs)
+		// the default encoder of the go-kit style handler, on the same error
+		obs["error_encoder"] = c10Outcome(func() error {
+			if !readable {
+				return nil
+			}
+			(&openapi3filter.ValidationErrorEncoder{Encoder: openapi3filter.DefaultErrorEncoder}).Encode(context.Background(), verr, httptest.NewRecorder())
+			return nil
+		}, &msgs)
 	}
 	rin := &openapi3filter.ResponseValidationInput{RequestValidationInput: input, Status: resp.status, Header: resp.header, Options: opts}
 	if nilOptions {
@@ -768,7 +807,12 @@ func c10Run(c *Case) []any {
 	if !resp.nil_ {
 		rin.Body = &c10Reader{data: resp.body, oneByte: resp.oneByte, errAt: resp.readErrAt, closeE: resp.closeErr}
 	}
-	obs["validate_response"] = c10Outcome(func() error { return openapi3filter.ValidateResponse(context.Background(), rin) }, &msgs)
+	var rerr error
+	obs["validate_response"] = c10Outcome(func() error { rerr = openapi3filter.ValidateResponse(context.Background(), rin); return rerr }, &msgs)
+	// "reported as an error": the error values can be read (text, parts, causes) without a panic either
+	if readable && (verr != nil || rerr != nil || cerr != nil) {
+		obs["error_report"] = c10Outcome(func() error { c10ReadError(verr, 0); c10ReadError(rerr, 0); c10ReadError(cerr, 0); return nil }, &msgs)
+	}
 	// the middleware (strict), with a handler that plays the response back
 	if d.mux != nil {
 		req2, _ := reqSpec.build()
@@ -789,8 +833,81 @@ func c10Run(c *Case) []any {
 			h.ServeHTTP(httptest.NewRecorder(), req2)
 			return nil
 		}, &msgs)
+		req3, _ := reqSpec.build()
+		obs["middleware_lenient"] = c10Outcome(func() error {
+			v := openapi3filter.NewValidator(d.mux, openapi3filter.ValidationOptions(*opts), openapi3filter.OnLog(func(_ context.Context, _ string, e error) {
+				if readable {
+					c10ReadError(e, 0)
+				}
+			}))
+			v.Middleware(http.HandlerFunc(func(w http.ResponseWriter, _ *http.Request) {
+				for k, vs := range resp.header {
+					w.Header()[k] = vs
+				}
+				if resp.status >= 100 && resp.status <= 999 {
+					w.WriteHeader(resp.status)
+				}
+				w.Write(resp.body)
+				if f, ok := w.(http.Flusher); ok {
+					f.Flush()
+				}
+			})).ServeHTTP(httptest.NewRecorder(), req3)
+			return nil
+		}, &msgs)
+	}
+	// the same document and routers serve the next request: the same traffic once more (whatever the first pass left behind
+	// in the loaded document - installed defaults, compiled patterns - is what the second pass meets)
+	if req4, e := reqSpec.build(); e == nil {
+		in4 := &openapi3filter.RequestValidationInput{Request: req4, PathParams: pp, Route: route, Options: input.Options}
+		obs["validate_again"] = c10Outcome(func() error {
+			e1 := openapi3filter.ValidateRequest(context.Background(), in4)
+			rin4 := &openapi3filter.ResponseValidationInput{RequestValidationInput: in4, Status: resp.status, Header: rin.Header, Options: rin.Options}
+			if !resp.nil_ {
+				rin4.Body = &c10Reader{data: resp.body}
+			}
+			e2 := openapi3filter.ValidateResponse(context.Background(), rin4)
+			if e1 != nil {
+				return e1
+			}
+			return e2
+		}, &msgs)
 	}
 	return []any{line}
+}
+
+// c10ReadError reads an error the way a caller does: its text, its typed parts, its causes
+func c10ReadError(err error, depth int) {
+	if err == nil || depth > 12 {
+		return
+	}
+	_ = err.Error()
+	switch e := err.(type) {
+	case openapi3.MultiError:
+		for _, x := range e {
+			c10ReadError(x, depth+1)
+		}
+		return
+	case *openapi3.SchemaError:
+		_ = e.JSONPointer()
+	case *openapi3filter.ParseError:
+		_ = e.Path()
+		c10ReadError(e.RootCause(), depth+1)
+	case *openapi3filter.SecurityRequirementsError:
+		for _, x := range e.Errors {
+			c10ReadError(x, depth+1)
+		}
+	case *openapi3filter.ValidationError:
+		_ = e.StatusCode()
+		_, _ = json.Marshal(e)
+	}
+	if u, ok := err.(interface{ Unwrap() error }); ok {
+		c10ReadError(u.Unwrap(), depth+1)
+	}
+	if u, ok := err.(interface{ Unwrap() []error }); ok {
+		for _, x := range u.Unwrap() {
+			c10ReadError(x, depth+1)
+		}
+	}
 }
 
 type c10Matcher struct{}
